@@ -126,6 +126,7 @@ pub fn run_check(ctx: &Ctx) -> Outcome {
             check_e1_medium(ctx, Prop::C07, &mut out, 12, 200);
             check_e2(ctx, Prop::C07, &[Kind::Seg], &mut out);
             check_vtype(ctx, Kind::Seg, &mut out, 3000, 60000);
+            check_big(ctx, crate::big::BigProp::C07, &[Kind::Seg], &mut out, 3, 40);
             check_ctor_caps_for(ctx, &mut out, "C07");
         }
         "C08" => {
@@ -134,12 +135,17 @@ pub fn run_check(ctx: &Ctx) -> Outcome {
             check_e2(ctx, Prop::C08, &[Kind::TwoQ], &mut out);
             check_2q_quota_grid(ctx, &mut out);
             check_vtype(ctx, Kind::TwoQ, &mut out, 3000, 60000);
+            check_big(ctx, crate::big::BigProp::C08, &[Kind::TwoQ], &mut out, 3, 40);
         }
         "C09" => {
             check_e1(ctx, Prop::C09, &mut out, 12000, 250000);
             check_e1_medium(ctx, Prop::C09, &mut out, 40, 600);
             check_e2(ctx, Prop::C09, &[Kind::Arc], &mut out);
             check_vtype(ctx, Kind::Arc, &mut out, 3000, 60000);
+            check_big(ctx, crate::big::BigProp::C09, &[Kind::Arc], &mut out, 4, 60);
+            if ctx.scale >= 1.0 {
+                check_arc_grid(ctx, &mut out);
+            }
         }
         "C10" => {
             check_e1(ctx, Prop::C10, &mut out, 12000, 250000);
@@ -204,6 +210,10 @@ pub fn replay(prop: &str, engine: &str, case: &Value) -> Result<Option<Violation
             }
             Ok(o.violations.first().map(|(_, m)| Violation { prop: pid, step: 0, msg: m.clone(), sig: format!("ctor/-/{}", engine) }))
         }
+        "arcgrid" => {
+            let (_, _, bad) = crate::big::arc_adaptation_grid(false, 8);
+            Ok(bad.map(|m| Violation { prop: "C09", step: 0, msg: m, sig: "arc/-/adaptation-grid".into() }))
+        }
         "putresult" => {
             let ctx = Ctx { id: "C12".into(), tier: Tier::Quick, seed: 1, verif_dir: std::env::var("VERIF_DIR").unwrap_or_else(|_| "/verif".into()), known: Default::default(), workers: 1, scale: 1.0 };
             let mut o = Outcome::default();
@@ -249,6 +259,9 @@ pub fn replay(prop: &str, engine: &str, case: &Value) -> Result<Option<Violation
                 "C02" => crate::big::BigProp::C02,
                 "C04" => crate::big::BigProp::C04,
                 "C06" => crate::big::BigProp::C06,
+                "C07" => crate::big::BigProp::C07,
+                "C08" => crate::big::BigProp::C08,
+                "C09" => crate::big::BigProp::C09,
                 "C13" => crate::big::BigProp::C13,
                 _ => crate::big::BigProp::C03,
             };
